@@ -14,7 +14,9 @@
 #include "rcu_extra.hpp"
 #include <optional>
 #define std vstd2
-#define private public  // harness-side only: final() peeks at m_head / m_obj without events
+#ifndef VS_NO_PEEK
+#define private public  // harness-side only: final() peeks at m_head / m_obj without events (VS_NO_PEEK: no contents line)
+#endif
 #include "gmlc/libguarded/rcu_list.hpp"
 #undef private
 #undef std
@@ -29,15 +31,17 @@ struct IRcu {
     virtual void final(std::vector<std::vector<long>>& out) = 0;
 };
 
-// cfg = [unfixed (model only), element kind: 0 = Elem (owns a std::string), 1 = TrivElem (trivially destructible)]
-template<class E>
+// cfg = [unfixed (model only), element kind: 0 = Elem (owns a std::string), 1 = TrivElem (trivially destructible),
+//        write mutex: 0 = std::mutex, 1 = std::timed_mutex (used through lock_guard it behaves as a plain mutex)]
+template<class E, class M>
 struct RcuImpl: IRcu {
-    using List = gmlc::libguarded::rcu_list<E, vstd::mutex, vs::rcu::VAlloc<E>>;
+    using List = gmlc::libguarded::rcu_list<E, M, vs::rcu::VAlloc<E>>;
     using Guarded = gmlc::libguarded::rcu_guarded<List>;
     struct Th {
         std::optional<typename Guarded::read_handle> rh;
         std::optional<typename Guarded::write_handle> wh;
         std::map<long, typename List::const_iterator> its;
+        long nops = 0;  // the way the handle is dereferenced alternates: h->f() / (*h).f() (both register on first use)
     };
     std::unique_ptr<Guarded> g;
     std::vector<Th> th;
@@ -62,6 +66,7 @@ struct RcuImpl: IRcu {
         if (code == 12) code = 2;
         if (code == 13) code = 7;
         if (code == 14) code = 10;
+        bool star = ((me.nops++ + tid) & 1) != 0;
         switch (code) {
             case 0:
                 if (me.rh || me.wh) return misuse();
@@ -73,9 +78,9 @@ struct RcuImpl: IRcu {
                 return 0;
             case 2:
                 if (me.rh)
-                    me.its.insert_or_assign(a, (*me.rh)->begin());
+                    me.its.insert_or_assign(a, star ? (*(*me.rh)).begin() : (*me.rh)->begin());
                 else if (me.wh)
-                    me.its.insert_or_assign(a, typename List::const_iterator((*me.wh)->begin()));
+                    me.its.insert_or_assign(a, typename List::const_iterator(star ? (*(*me.wh)).begin() : (*me.wh)->begin()));
                 else
                     return misuse();
                 return 0;
@@ -98,11 +103,11 @@ struct RcuImpl: IRcu {
             }
             case 6:
                 if (!me.wh) return misuse();
-                (*me.wh)->push_front(E(typename E::Quiet{}, a));
+                if (star) (*(*me.wh)).push_front(E(typename E::Quiet{}, a)); else (*me.wh)->push_front(E(typename E::Quiet{}, a));
                 return 0;
             case 7:
                 if (!me.wh) return misuse();
-                (*me.wh)->push_back(E(typename E::Quiet{}, a));
+                if (star) (*(*me.wh)).push_back(E(typename E::Quiet{}, a)); else (*me.wh)->push_back(E(typename E::Quiet{}, a));
                 return 0;
             case 8:
                 if (!me.wh) return misuse();
@@ -136,9 +141,13 @@ struct RcuImpl: IRcu {
         }
         std::vector<long> vals{-3};
         size_t fuel = vs::rcu::reg().cells.size() + 1;
+#ifndef VS_NO_PEEK
         for (auto* n = g->m_obj.m_head.vs_peek(); n != nullptr && fuel > 0; n = n->next.vs_peek(), --fuel)
             vals.push_back(n->data.v);
         out.push_back(vals);
+#else
+        (void)fuel;
+#endif
         for (auto& t : th) t.its.clear();
         g.reset();  // ~rcu_list
         for (auto& l : vs::rcu::reg().side) out.push_back(l);
@@ -151,10 +160,16 @@ struct RcuComp {
     std::unique_ptr<IRcu> p;
     explicit RcuComp(const vs::Case& c)
     {
-        if (c.cfg.size() > 1 && c.cfg[1] == 1)
-            p.reset(new RcuImpl<TrivElem>(c));
+        bool triv = c.cfg.size() > 1 && c.cfg[1] == 1;
+        bool timed = c.cfg.size() > 2 && c.cfg[2] == 1;
+        if (triv && timed)
+            p.reset(new RcuImpl<TrivElem, vstd::timed_mutex>(c));
+        else if (triv)
+            p.reset(new RcuImpl<TrivElem, vstd::mutex>(c));
+        else if (timed)
+            p.reset(new RcuImpl<Elem, vstd::timed_mutex>(c));
         else
-            p.reset(new RcuImpl<Elem>(c));
+            p.reset(new RcuImpl<Elem, vstd::mutex>(c));
     }
     long op(int tid, const std::vector<long>& o) { return p->op(tid, o); }
     void final(std::vector<std::vector<long>>& out) { p->final(out); }
